@@ -44,6 +44,7 @@ package boltz
 //@   pure
 //@   ensures result == index.symbol
 //@ func (*setIndex).Label
+//@   nosafety
 //@   pure
 //@ func (Constraint).Label
 //@   pure
@@ -153,6 +154,7 @@ package boltz
 //@   props C09
 //@   nosafety
 //@   callpre[a-dangling-reference-is-cleared-only-in-fix-mode-and-only-where-null-is-allowed] Put@1: fix && index.nullable
+//@   callpre[the-cleared-field-is-the-symbol's-own-stored-field] Put@1: esPathLen(index.symbol) == 1 && str(arg0) == sel(esPathArr(index.symbol), 0) && arg1 == nil
 //@   waive pre#Next the cursor protocol of the id and link cursors is C14's concern, not part of this claim
 //@   waive pre#Current the cursor protocol of the id and link cursors is C14's concern, not part of this claim
 //@   assume ciFix == fix
@@ -168,6 +170,7 @@ package boltz
 //@ func (*fkConstraint).CheckIntegrity
 //@   props C09
 //@   nosafety
+//@   callpre[the-cleared-field-is-the-symbol's-own-stored-field] Put@1: fix && esPathLen(index.symbol) == 1 && str(arg0) == sel(esPathArr(index.symbol), 0) && arg1 == nil
 //@   waive pre#Next the cursor protocol of the id and link cursors is C14's concern, not part of this claim
 //@   waive pre#Current the cursor protocol of the id and link cursors is C14's concern, not part of this claim
 //@   assume ciFix == fix
@@ -263,9 +266,17 @@ package boltz
 //@   ensures[present-in-a-child-store-iff-its-data-path-exists] store.parent != nil ==> result == (sEnts(store, tx) != 0 && sEntHas(store, tx, id) && pathExists(sel(bktSub[sEnts(store, tx)], id), arr(store.entityPath), len(store.entityPath), bktHas, bktSub))
 //@   ensures[present-in-the-child-store-means-present-in-the-parent] store.parent != nil && result ==> sEnts(store, tx) != 0 && sEntHas(store, tx, id)
 // assumed: positioning a filtered id cursor evaluates the filter, which only reads
+// the cursor behind IterateIds / IterateValidIds and sub-queries: a filter that is a whole query brings its own skip and
+// limit, and they are applied by the scanners' one paging rule (negative or 'none' limit = unbounded, negative skip = 0)
 //@ func newFilteredCursor
+//@   props C02 C09
+//@   nosafety
+//@   waive pre#Next the cursor handed in was positioned by its maker (cursor protocol: C14)
 //@   modifies *
-//@   ensures result != nil && dbSame()
+//@   ensures result != nil
+//@   censures dbSame()
+//@   callpre[a-query's-own-paging-goes-through-the-scanners'-paging-rule] setPaging@1: ref(arg0) == ref(filter)
+//@   lensures[a-query-filter-is-always-paged] istype(filter, ast.Query) ==> called(setPaging, 1)
 //@ func (*BaseStore).IterateIds
 //@   props C09
 //@   nosafety
